@@ -213,19 +213,32 @@ def blocklist_names(model, res):
 
 
 def exclusion_mode(model):
-    """How get_type decides not to cache: 'exact' | 'subclass' | None."""
+    """How get_type decides not to cache: 'exact' | 'subclass' | 'unknown' | None (no test at all).
+    Decided on the smallest comparison / call of the guarding test that mentions the blocklist."""
     f = model.find_function("AbstractTypeResolver.get_type")
     mode = None
+
+    def atoms(t):
+        if isinstance(t, ast.BoolOp):
+            for v in t.values:
+                yield from atoms(v)
+        elif isinstance(t, ast.UnaryOp) and isinstance(t.op, ast.Not):
+            yield from atoms(t.operand)
+        else:
+            yield t
+
     for n in ast.walk(f.node):
-        if isinstance(n, ast.If):
-            src = ast.unparse(n.test)
-            if "cache_blocklist" in src:
-                if isinstance(n.test, ast.Compare) and isinstance(n.test.ops[0], (ast.In, ast.NotIn)):
+        if isinstance(n, (ast.If, ast.IfExp)) and "cache_blocklist" in ast.unparse(n.test):
+            for a in atoms(n.test):
+                src = ast.unparse(a)
+                if "cache_blocklist" not in src:
+                    continue
+                if isinstance(a, ast.Compare) and isinstance(a.ops[0], (ast.In, ast.NotIn)):
                     mode = "exact"
-                elif "issubclass" in src or "isinstance" in src:
-                    mode = "subclass"
+                elif isinstance(a, ast.Call) and dotted(a.func) in ("issubclass", "isinstance"):
+                    mode = "subclass" if mode != "exact" else mode
                 else:
-                    mode = "unknown"
+                    mode = mode or "unknown"
     return mode
 
 
